@@ -658,6 +658,39 @@ def oracle_pairwise(c):
     return None
 
 
+def oracle_combine(c):
+    """ The package's OTHER pairwise combiner, `ss.utils.combine_rands` (what the Erdos-Renyi network decides the existence of an edge
+        with), fed as the network feeds it: per-agent integers drawn by slot from `ss.randint(int64 range, dtype=int64)` (kind 'int64')
+        or from `ss.rand_raw` (kind 'raw', the documented input).  The number of a pair depends only on the two agents' slots: not on
+        the other pairs of the call (a sub-list of the pairs; one pair alone), and not on the agents' uids. """
+    import starsim as ss
+    slots = np.array(c['slots']); src = np.array(c['src']); trg = np.array(c['trg']); perm = np.array(c['perm']); keep = np.array(c['keep'])
+    kind = c.get('kind', 'int64')
+    def pair(slots_, s_, t_):
+        if kind == 'int64': d = ss.randint(low=np.iinfo('int64').min, high=np.iinfo('int64').max, dtype=np.int64)
+        else: d = ss.rand_raw()
+        d.init(trace=c['trace'], seed=c['seed'], sim=Sim0(slots_), slots=slots_)
+        play_history(d, c['history'], via=c.get('via', 'dist'))
+        everyone = np.unique(np.concatenate([s_, t_]))
+        ints = np.asarray(d.rvs(ss.uids(everyone)))             # one draw for all agents of the call, as `add_pairs` does
+        pos = {int(u): k for k, u in enumerate(everyone)}
+        return np.asarray(ss.utils.combine_rands(ints[[pos[int(u)] for u in s_]], ints[[pos[int(u)] for u in t_]]))
+    sig = dict(oracle='pairwise-depends-on-more-than-slots', combiner='combine_rands')
+    full = pair(slots, src, trg)
+    sub = pair(slots, src[keep], trg[keep])
+    if not same(sub, full[keep]):
+        return dict(signature=dict(sig, relation='edge-subset'), what=f'combine_rands ({kind} inputs): the numbers of pairs {keep[:6].tolist()} change when the other pairs are left out of the call')
+    for e in range(min(3, len(src))):
+        one = pair(slots, src[e:e + 1], trg[e:e + 1])
+        if not same(one, full[e:e + 1]):
+            return dict(signature=dict(sig, relation='edge-alone'), what=f'combine_rands ({kind} inputs): the number of pair {e} (agents {int(src[e])}, {int(trg[e])}) differs between a call with all pairs and a call with this pair alone')
+    slots2 = np.empty_like(slots); slots2[perm] = slots
+    rel = pair(slots2, perm[src], perm[trg])
+    if not same(rel, full):
+        return dict(signature=dict(sig, relation='uid-relabel'), what=f'combine_rands ({kind} inputs): the numbers of the pairs change when the agents get other uids but keep their slots')
+    return None
+
+
 def oracle_extension(cfg):
     """ Sim level: n agents vs n+k agents where the extras can neither transmit nor be infected (slot-keyed networks) """
     import starsim as ss
@@ -673,9 +706,21 @@ def oracle_extension(cfg):
             for dis in self.sim.diseases():
                 dis.rel_sus[ex] = 0.0; dis.rel_trans[ex] = 0.0
 
+    class edges(ss.Analyzer):
+        """ per step: the edges among the ORIGINAL agents in every network (pair formation is a pairwise draw keyed by the two slots) """
+        def __init__(self, n, **kw):
+            super().__init__(**kw); self.n = n; self.log = []
+        def step(self):
+            row = {}
+            for net in self.sim.networks():
+                p1 = np.asarray(net.edges.p1); p2 = np.asarray(net.edges.p2)
+                k = (p1 < self.n) & (p2 < self.n)
+                row[net.name] = sorted(zip(p1[k].tolist(), p2[k].tolist(), np.asarray(net.edges.dur)[k].tolist() if 'dur' in net.edges else [0] * int(k.sum())))
+            self.log.append(row)
+
     def run(n_agents):
         c = dict(cfg); c['n_agents'] = n_agents
-        sim = impl.build_sim(c, extra_interventions=[neutralise(first=n)])
+        sim = impl.build_sim(c, extra_interventions=[neutralise(first=n)], extra_analyzers=[edges(n, name='c03edges')])
         sim.init()
         # extras must not seed infections among themselves that matter: they are neutralised before transmission
         sim.run()
@@ -684,8 +729,14 @@ def oracle_extension(cfg):
             for st in ('ti_infected', 'ti_recovered', 'susceptible', 'infected'):
                 if hasattr(dis, st):
                     out[f'{dis.name}.{st}'] = np.asarray(getattr(dis, st).raw[:n]).copy()
-        return out
-    a = run(n); b = run(n + k)
+        return out, sim.analyzers['c03edges'].log
+    (a, ea), (b, eb) = run(n), run(n + k)
+    for t, (ra, rb) in enumerate(zip(ea, eb)):
+        for nm in ra:
+            if ra[nm] != rb.get(nm):
+                diff = sorted(set(map(tuple, ra[nm])) ^ set(map(tuple, rb.get(nm) or [])))
+                return dict(signature=dict(oracle='extension', network=cfg['networks'][0]['type'], relation='edges'),
+                            what=f"adding {k} agents who can neither transmit nor be infected changed the edges AMONG the original agents in network `{nm}` at step {t} (e.g. (p1, p2, dur) {diff[:3]}; {len(ra[nm])} vs {len(rb.get(nm) or [])} edges)")
     for key in a:
         if not same(a[key], b[key]):
             bad = np.flatnonzero(~((a[key] == b[key]) | (np.isnan(a[key].astype(float)) & np.isnan(b[key].astype(float)))))
@@ -835,6 +886,14 @@ def search(ctx):
         ctx.count('oracle_pairwise_cases')
         if f:
             ctx.fail(f['signature'], f['what'], dict(kind='pairwise', case=c))
+    import random as pyrandom
+    crng = pyrandom.Random(ctx.rng.randint(0, 10**9))
+    for i in range(ctx.budget(20, 150)):
+        c = gen_pairwise_case(crng); c['kind'] = ['int64', 'raw'][i % 2]
+        f = oracle_combine(c)
+        ctx.count('oracle_combine_cases')
+        if f:
+            ctx.fail(f['signature'], f['what'], dict(kind='combine', case=c))
     for i in range(ctx.budget(5, 20)):
         c = gen_long_case(ctx.rng, families, i)
         try:
@@ -856,7 +915,7 @@ def search(ctx):
     user_dists = [dict(dist='gamma', pars=dict(a=2.0, scale=3.0)), dict(dist='weibull', pars=dict(c=1.5, scale=4.0), preview=3),
                   dict(dist='lognorm_ex', pars=dict(mean=4.0, std=2.0), preview=5)]
     for ud in user_dists:
-        cfg = dict(n_agents=60, rand_seed=ctx.rng.randint(0, 1000), unit='year', dt=1.0, start=2000, dur=12, extra=ctx.rng.choice([1, 7, 30]),
+        cfg = dict(n_agents=60, rand_seed=ctx.rng.randint(0, 1000), unit='year', dt=1.0, start=2000, dur=12, extra=ctx.rng.choice([7, 30]),
                    diseases=[dict(type='sir', beta=0.5, init_prev=0.15, dur_inf=ud, p_death=0)], networks=[dict(type='erdosrenyi', p=0.08)], demographics=[])
         f = oracle_extension(cfg)
         ctx.count('extension_runs_user_dist')
@@ -888,6 +947,8 @@ def replay(ctx, data):
         return oracle_case(data['case']) is not None
     if data.get('kind') == 'pairwise':
         return oracle_pairwise(data['case']) is not None
+    if data.get('kind') == 'combine':
+        return oracle_combine(data['case']) is not None
     if data.get('kind') == 'long_run':
         return oracle_long_run(data['cfg']) is not None
     if data.get('kind') == 'extension':
